@@ -9,15 +9,15 @@ import (
 
 // Spec controls one generated program.
 type Spec struct {
-	Seed     int64
-	Index    int
-	Hostile  bool // include hostile contexts (package-level initialisers, constructor-named functions elsewhere, decoys)
-	Tests    bool // include _test.go files (in-package and external)
-	Excluded bool // include files whose names contain pool tokens / the default token
-	PerPair  int  // statements templates per (using package, type)
-	Impl     bool // include plain @implements cases (IMPL01..03) so that every code occurs
-	NoFreeT  bool // avoid TONL-FREE mentions of @testonly types (keeps once-per-file groups determinate)
-	MinimalAnn int // 0: random annotation mixes; 1: every type carries every annotation (all-codes programs)
+	Seed        int64
+	Index       int
+	Hostile     bool // include hostile contexts (package-level initialisers, constructor-named functions elsewhere, decoys)
+	Tests       bool // include _test.go files (in-package and external)
+	Excluded    bool // include files whose names contain pool tokens / the default token
+	PerPair     int  // statements templates per (using package, type)
+	Impl        bool // include plain @implements cases (IMPL01..03) so that every code occurs
+	NoFreeT     bool // avoid TONL-FREE mentions of @testonly types (keeps once-per-file groups determinate)
+	MinimalAnn  int  // 0: random annotation mixes; 1: every type carries every annotation (all-codes programs)
 	Typed       bool // unused (typed-variable templates are always part of the template set)
 	ExclHeaders bool // pool-token files carry a file-level "@ignore ALL" (inert while the file is excluded)
 	Twin        bool // the second declaring package starts with a byte-identical copy of the first one's first type (api/v1 vs api/v2)
@@ -29,7 +29,7 @@ type Spec struct {
 }
 
 // PoolTokens: exclude-paths tokens that occur in generated file names.
-var PoolTokens = []string{"gen_legacy", "zz_skip"}
+var PoolTokens = []string{"gen_legacy", "zz_skip", "Gen_Old"} // matching is case-sensitive: "gen_old" does not exclude Gen_Old_x.go
 
 type Built struct {
 	P     *Prog
@@ -837,7 +837,9 @@ func Build(spec Spec) *Built {
 				// a function of this package that merely has the name of a listed constructor
 				if t.Ctors != nil && !usedNames[t.Ctors[0]] && fdot == nil {
 					usedNames[t.Ctors[0]] = true
-					body, _ := stmts(pick(func(tm Tmpl) bool { return !tm.Decl && (tm.Cat == IMM || tm.Cat == CTOR) && (exportedName(t.Name) || tm.NoImp) }, 4), "xpkg-ctor-name", "xpkg-ctor-name")
+					body, _ := stmts(pick(func(tm Tmpl) bool {
+						return !tm.Decl && (tm.Cat == IMM || tm.Cat == CTOR) && (exportedName(t.Name) || tm.NoImp)
+					}, 4), "xpkg-ctor-name", "xpkg-ctor-name")
 					n, _ := b.FuncNode(u, t.Ctors[0], false, nil, f, body)
 					f.Decls = append(f.Decls, n)
 				}
@@ -1017,6 +1019,19 @@ func (b *B) addImpl(d *Pkg, f *File) {
 	mk("Circ", "nosuchpkg.Shape", []string{"IMPL01"}, nil)
 	mk("Hex", "NoSuchIface", []string{"IMPL02"}, nil)
 	mk("Oct", "&Shape", []string{"IMPL03"}, []string{"Area() string { return \"\" }", "Name() string { return \"o\" }"})
+	// @implements on alias declarations whose target lives in another file / another package: the diagnostic belongs
+	// to the annotated declaration, not to the place where the aliased type is declared
+	f.Decls = append(f.Decls, &Node{Pre: []*Line{b.line("type plainImpl struct{ n int }")}})
+	f2 := b.NewFile(d, "implalias.go")
+	mkAlias := func(name, target string) {
+		t := &Type{Pkg: d, Name: name, Kind: "struct", Impl: []string{"Shape"}, ImplCodes: []string{"IMPL03"}, File: f2}
+		n := &Node{TypeDecl: t, Doc: []string{" " + name + " is generated.", " @implements Shape"}, Pin: f2.Name}
+		n.Pre = []*Line{b.line("type "+name+" = "+target, &Use{Kind: UImpl, T: t})}
+		n.Pre[0].Feature = "implements-on-alias-declaration"
+		f2.Decls = append(f2.Decls, n)
+	}
+	mkAlias("AliasLocal", "plainImpl")
+	mkAlias("AliasStd", "«bytes».Buffer")
 }
 
 // addExotic: shapes outside the supported fragment. Every line is FreeAll; the file must compile.
